@@ -336,3 +336,51 @@ contract(AS + '::Autoscaler.apply_mult_unscaling', ['C20'],
              "same_object(result[0], desvar_multipliers) and same_object(result[1], con_multipliers)"],
          modifies=["desvar_multipliers['x']", "con_multipliers['g']"], native=native_mult,
          canaries=[('objective scaler multiplies instead of divides', ('mult *= scaler / obj_scaler', 'mult *= scaler * obj_scaler'), 'post')])
+
+
+# ---------------------------------------------------------------------------------------------
+# _TotalJacInfo._apply_unit_scaling: driver units are an affine map of model units; the total jacobian block
+# d(resp)/d(dv) is multiplied by the response's unit factor and divided by the design variable's — every entry,
+# both dict layouts; names without a unit factor are left alone; an empty dict / no factors: nothing happens.
+TJ = 'openmdao/core/total_jac.py'
+
+
+def native_unit(layout):
+    def build(vals, np, om):
+        from pyvc.native_helpers import A, Fl
+        from openmdao.core.total_jac import _TotalJacInfo
+        o = _TotalJacInfo.__new__(_TotalJacInfo)
+        o._resp_unit_scalers = {k: Fl(v) for k, v in vals['self']['_resp_unit_scalers'].items()}
+        o._desvar_unit_scalers = {k: Fl(v) for k, v in vals['self']['_desvar_unit_scalers'].items()}
+        jd = vals['jac_dict']
+        if layout == 'flat':
+            jac = {k: A(v) for k, v in jd.items()}
+        else:
+            jac = {'f': {'x': A(jd['f']['x']), 'z': A(jd['f']['z'])}, 'q': {'x': A(jd['q']['x'])}}
+        fx = jac[('f', 'x')] if layout == 'flat' else jac['f']['x']
+        return dict(self=o, jac_dict=jac), dict(r=fx.shape[0], c=fx.shape[1])
+    return build
+
+
+for layout in ('flat', 'nested'):
+    if layout == 'flat':
+        jd = DictT({('f', 'x'): Arr('r', 'c'), ('q', 'x'): Arr('r', 'c'), ('f', 'z'): Arr('r', 'c')})
+        FX, QX, FZ = "jac_dict[('f', 'x')]", "jac_dict[('q', 'x')]", "jac_dict[('f', 'z')]"
+    else:
+        jd = DictT({'f': DictT({'x': Arr('r', 'c'), 'z': Arr('r', 'c')}), 'q': DictT({'x': Arr('r', 'c')})})
+        FX, QX, FZ = "jac_dict['f']['x']", "jac_dict['q']['x']", "jac_dict['f']['z']"
+    RF, DX = "self._resp_unit_scalers['f']", "self._desvar_unit_scalers['x']"
+    contract(TJ + '::_TotalJacInfo._apply_unit_scaling', ['C20'],
+             dict(self=Obj('_TotalJacInfo', _resp_unit_scalers=DictT({'f': Real()}), _desvar_unit_scalers=DictT({'x': Real()})), jac_dict=jd),
+             requires=['%s != 0' % RF, '%s != 0' % DX],
+             ensures=['all(all(approx(%s[i, j], %s * old(%s[i, j]) / %s) for j in range(c)) for i in range(r))' % (FX, RF, FX, DX),
+                      # only the response / only the design variable has a unit factor
+                      'all(all(approx(%s[i, j], old(%s[i, j]) / %s) for j in range(c)) for i in range(r))' % (QX, QX, DX),
+                      'all(all(approx(%s[i, j], %s * old(%s[i, j])) for j in range(c)) for i in range(r))' % (FZ, RF, FZ)],
+             modifies=[FX, QX, FZ], name=TJ + '::_TotalJacInfo._apply_unit_scaling[%s]' % layout, native=native_unit(layout),
+             canaries=[('design-variable unit factor multiplies instead of divides',
+                        (('                if in_scaler:\n                    block *= (1.0 / in_scaler)', '                if in_scaler:\n                    block *= in_scaler') if layout == 'flat' else
+                         ('                    if in_scaler:\n                        block *= (1.0 / in_scaler)', '                    if in_scaler:\n                        block *= in_scaler')), 'post'),
+                       ('response unit factor skipped',
+                        (('                if out_scaler:\n                    block *= out_scaler', '                if out_scaler:\n                    block *= 1.0') if layout == 'flat' else
+                         ('                    if out_scaler:\n                        block *= out_scaler', '                    if out_scaler:\n                        block *= 1.0')), 'post')])
